@@ -35,8 +35,8 @@ def ob_neighbour_frame(k0: int, t0: int, g0: int, px: bool, kx: int, tx: int, gx
     pre: SHAPE in (0, 3, 4) or (fk1 == 0)
     pre: SHAPE in (1, 4) or not fa
     pre: SHAPE in (2, 3) or (fv1 == 0 and g0 == 0 and gx == 0)
-    pre: THOROUGH or until is None or SHAPE == 0
-    pre: THOROUGH or SHAPE not in (2, 3) or (g0 in (1, 2) and not px and xid and fv1 < 2)
+    pre: until is None or SHAPE == 0
+    pre: SHAPE not in (2, 3) or (not px and (THOROUGH or (g0 in (1, 2) and xid and fv1 < 2)))
     pre: SHAPE in (0, 3, 4) or (k0 == 0 and kx == 0)
     pre: THOROUGH or SHAPE != 3 or (fv1 < 2 and kx == k0)
     post: _.startswith("ok")
@@ -67,11 +67,11 @@ def ob_monotone_union(k0: int, t0: int, g0: int, k1: int, t1: int, g1: int, fk1:
     pre: 0 <= g0 < 4 and 0 <= g1 < 4 and 0 <= fk1 < 2 and 0 <= fv1 < 3 and 0 <= extra < 3 and 0 <= bound <= 200
     pre: PARAM != 1 or extra == 0
     pre: PARAM not in (0, 3, 4) or extra == {0: 0, 3: 1, 4: 2}[PARAM]
-    pre: THOROUGH or PARAM in (2, 5) or (g0 < 3 and g1 < 2 and fv1 < 2 and k1 == 0 and (extra == 0 or bound in (0, 50)))
+    pre: PARAM in (2, 5) or ((extra == 0 or bound in (0, 50)) and (THOROUGH or (g0 < 3 and g1 < 2 and fv1 < 2 and k1 == 0)))
     pre: PARAM not in (2, 5) or (extra == (0 if PARAM == 2 else 1) and fk1 == 0 and fv1 == 0)
     pre: PARAM != 2 or (g0 == 0 and g1 == 0)
     pre: PARAM != 5 or (k0 == 0 and k1 == 0)
-    pre: THOROUGH or PARAM not in (2, 5) or (bound in (0, 50))
+    pre: PARAM not in (2, 5) or (bound in (0, 50))
     post: _.startswith("ok")
     """
     logging.disable(logging.CRITICAL)
